@@ -73,6 +73,10 @@ CHECK = {
     "env": {"GORACE": "halt_on_error=0 log_path=race"},
     "parallel": 8,
     "nontrivial_floor": 0.005,
+    "rewrites": [
+        # reassembly snapshots after 4 packets instead of 100000: the scenarios have a few dozen packets
+        {"file": "internal/index/builder/builder.go", "pattern": r">= 100_000\b", "replacement": ">= 4"},
+    ],
     "campaigns": [
         {"test": "TestVerifC20", "checks": {"quick": 160, "thorough": 6000}, "timeout": {"quick": 900, "thorough": 7200}, "shrinktime": "1s"},
     ],
